@@ -98,3 +98,26 @@ fn d08_extended_audio_object_type() {
     let out = Mp4aBox::read_box(&mut c, h.size).unwrap();
     assert_eq!(out.esds.unwrap().es_desc.dec_config.dec_specific.profile, 42);
 }
+
+/// D-31: a child box with a 64-bit header in front of avcC / esds was skipped 8 bytes short (`current + s`, where s is largesize - 8)
+#[test]
+fn d31_child_with_64bit_header_in_sample_entry() {
+    let b = Avc1Box::new(&AvcConfig { width: 16, height: 16, seq_param_set: vec![0x67, 66, 0, 30, 1, 2], pic_param_set: vec![0x68, 1, 2] });
+    let mut v = Vec::new();
+    b.write_box(&mut v).unwrap();
+    // insert `free` with a 64-bit header (size field 1, largesize 24, 8 payload bytes) in front of the avcC child (offset 86)
+    let mut child = vec![0u8, 0, 0, 1, b'f', b'r', b'e', b'e', 0, 0, 0, 0, 0, 0, 0, 24];
+    child.extend_from_slice(&[0u8; 8]);
+    let mut w = v[..86].to_vec();
+    w.extend_from_slice(&child);
+    w.extend_from_slice(&v[86..]);
+    let total = w.len() as u32;
+    w[..4].copy_from_slice(&total.to_be_bytes());
+    let mut c = Cursor::new(w);
+    let h = BoxHeader::read(&mut c).unwrap();
+    let out = Avc1Box::read_box(&mut c, h.size).expect("a sample entry with a large-size child must parse");
+    assert_eq!(out.avcc.sequence_parameter_sets, b.avcc.sequence_parameter_sets);
+    assert_eq!(out.avcc.picture_parameter_sets, b.avcc.picture_parameter_sets);
+    assert_eq!((out.width, out.height), (16, 16));
+    assert_eq!(c.position(), total as u64);
+}
